@@ -8,7 +8,8 @@
      XPsm            l2cap: L2CAP_Connection_Request.parse_psm / serialize_psm
      XU16Strict      att:   _SET_OF_HANDLES_METADATA  [unpack_from('<H', data, i) for i in range(offset, len, 2)]
      XU16Lenient     l2cap: parse_cid_list            count = (len - offset) // 2
-     XLvList         att:   ATT_Read_Multiple_Variable_Response._parse_length_value_tuples
+     XLvList         att:   ATT_Read_Multiple_Variable_Response._parse_length_value_tuples and the serializer
+                            lambda: each tuple is (Length, value) with its OWN Length element, written as given
      XHandles32      sdp:   _parse_service_record_handle_list  '>H' count, '>I' each
      XLenBytes16     sdp:   _parse_bytes_preceded_by_length    '>H' length, bytes
      XUuid2          core:  UUID.parse_uuid_2 (bytes(uuid) on the way out)
@@ -80,6 +81,16 @@ Fixpoint lv_parse (fuel : nat) (bs : list Z) : option (list value) :=
           end
       end
   end.
+(* NOT the code: a serializer that derives each Length from the value (what a "tidy" refactoring
+   would write); it loses the Length of a truncated last value - see lv_derived_refuted *)
+Fixpoint lv_ser_derived (vs : list value) : option (list Z) :=
+  match vs with
+  | [] => Some []
+  | VList [VInt _; VBytes b] :: r =>
+      if u_range 2 (lenZ b) then match lv_ser_derived r with Some rb => Some (le_encode 2 (lenZ b) ++ b ++ rb) | None => None end
+      else None
+  | _ => None
+  end.
 Fixpoint lv_ser (vs : list value) : option (list Z) :=
   match vs with
   | [] => Some []
@@ -88,10 +99,20 @@ Fixpoint lv_ser (vs : list value) : option (list Z) :=
       else None
   | _ => None
   end.
+(* what round-trips: every tuple's Length equals the number of value octets, except that the LAST
+   value may be shorter than its Length (Vol 3 Part F 3.4.4.12: the last value is truncated to what
+   fits in ATT_MTU while Length still reports the full attribute length; the parser's slice clamps
+   at the end of the PDU).  A value longer than its Length, or a short value before the end, does
+   not come back (the parser cuts at Length / reads the next tuple out of the value). *)
 Fixpoint lv_inr (vs : list value) : bool :=
   match vs with
   | [] => true
-  | VList [VInt l; VBytes b] :: r => (l =? lenZ b) && u_range 2 l && bytes_ok b && lv_inr r
+  | VList [VInt l; VBytes b] :: r =>
+      u_range 2 l && bytes_ok b &&
+      match r with
+      | [] => lenZ b <=? l
+      | _ => (l =? lenZ b) && lv_inr r
+      end
   | _ => false
   end.
 
